@@ -178,4 +178,5 @@ def run(tier):
     # the proposal map of the Hamiltonian sampler at temperatures other than one: trajectory end points of Leapfrog.tla (HmcStep.tla is T = 1)
     from harness import c07
     c07.orbit_part(ck, tier, reversibility=False)
+    c07.massupdate_part(ck, tier)            # momenta are drawn from the law of the mass in force, also after the mass was re-estimated
     return ck.finish()
